@@ -52,6 +52,8 @@ elif name=='M11_move_ctor_keeps_raw':
 			row.mFreeRaws = nullptr;''','''			row.mFreeRaws = nullptr;''')
 elif name=='M12_row_gets_private_head':
     sub(tab,'return RowProxy(&GetColumnList(), raw, &mCrew.GetFreeRaws());','static FreeRaws other(nullptr);\n\t\treturn RowProxy(&GetColumnList(), raw, &other);')
+elif name=='M13_makerow_null_head':
+    sub(tab,'return RowProxy(&GetColumnList(), raw, &mCrew.GetFreeRaws());','return RowProxy(&GetColumnList(), raw, nullptr);')
 elif name=='C1_createraw_catch_leaks':
     sub(tab,'''		catch (...)
 		{
